@@ -293,15 +293,17 @@ func c06HasHeader(q *c06Req, name string) bool {
 // kinds (coverage labels): 1-29 signature, 30-49 jwt, 50-59 basic, 60-69 header rules, +100 when several methods are configured
 
 func c06AttachHeaders(r *vfRand, in *c06In, focus bool) int {
-	rule := c06HRule{Key: r.PickStr("X-Api-Version", "x-client", "X-Env")}
+	rule := c06HRule{Key: r.PickStr("X-Api-Version", "x-client", "X-Env", "X-Role")}
 	if r.Chance(2, 3) {
-		rule.Values = [][]string{{"v1", "v2"}, {"prod"}, {"abc", "goodplan", ""}}[r.Intn(3)]
+		rule.Values = [][]string{{"v1", "v2"}, {"prod"}, {"abc", "goodplan", ""}, {"admin", "auditor"}, {"read,write", "read"}, {"a, b"}}[r.Intn(6)]
 	}
 	if len(rule.Values) == 0 || r.Chance(1, 2) {
-		rule.Regexp = r.PickStr("^v[0-9]+$", "^ok-.+$", "prod|stage", "^[a-z]{3,8}$")
+		rule.Regexp = r.PickStr("^v[0-9]+$", "^ok-.+$", "prod|stage", "^[a-z]{3,8}$", "^tenant=[0-9]+, *zone=[a-z]+$", "^(admin|auditor)$")
 	}
 	in.Cfg.Headers = []c06HRule{rule}
-	good := []string{"v1", "prod", "abc", "v22", "ok-x", "stage", "goodplan"}
+	// a header value is the whole field line: commas and blanks inside it are part of the value
+	good := []string{"v1", "prod", "abc", "v22", "ok-x", "stage", "goodplan", "admin", "auditor", "read,write", "read", "a, b",
+		"tenant=12, zone=eu", "tenant=7,zone=us"}
 	pickGood := func() string {
 		for _, g := range good {
 			if ok, _ := c06RefHeaders(in.Cfg.Headers, &c06View{Headers: []c06KV{{K: c06CK(rule.Key), V: []string{g}}}}); ok && r.Chance(1, 2) {
@@ -315,7 +317,11 @@ func c06AttachHeaders(r *vfRand, in *c06In, focus bool) int {
 		}
 		return rule.Values[0]
 	}
-	bad := r.PickStr("nope", "V1", "v1 ", "xprod-", "ok-", "")
+	bad := r.PickStr("nope", "V1", "v1 ", "xprod-", "ok-", "", "admin,guest", "guest, admin", "admin, auditor", "v1,v2", "v1, nope",
+		"prod,prod", "read, write", "write,read", "a,b", "tenant=12", "abc,", ",abc", "goodplan , x")
+	if ok, _ := c06RefHeaders(in.Cfg.Headers, &c06View{Headers: []c06KV{{K: c06CK(rule.Key), V: []string{strings.TrimSpace(bad)}}}}); ok {
+		bad = "nope,nope"
+	}
 	variant := 0
 	if focus {
 		variant = r.Intn(6)
@@ -680,7 +686,7 @@ func c06AttachSig(r *vfRand, in *c06In, focus, forceQuery, adv bool) int {
 	}
 	variant := r.Intn(42)
 	if adv && r.Chance(1, 2) {
-		variant = r.PickInt(8, 9, 34, 35, 36, 37, 38, 39, 40)
+		variant = r.PickInt(8, 9, 20, 20, 34, 35, 36, 37, 38, 39, 40)
 	}
 	if variant >= 34 { // requests that carry the precomputed payload hash header
 		return c06SigHashHeader(r, in, cfg, pl, variant-34)
@@ -781,8 +787,27 @@ func c06AttachSig(r *vfRand, in *c06In, focus, forceQuery, adv bool) int {
 			mut(c06Mut{Op: "tagflip", N: r.Intn(64)})
 		}
 		return 10
-	case 20: // unknown access key
-		pl.KeyID = "nokey"
+	case 20: // unknown access key ids: other name, EMPTY id with empty secret, blanks, other case, padded
+		switch r.Intn(7) {
+		case 0:
+			pl.KeyID = "nokey"
+		case 1:
+			pl.KeyID, pl.Secret = "", ""
+		case 2:
+			pl.KeyID, pl.Secret = "", pl.Secret
+		case 3:
+			pl.KeyID, pl.Secret = " ", r.PickStr("", pl.Secret)
+		case 4:
+			if x := strings.ToLower(pl.KeyID); x != pl.KeyID {
+				pl.KeyID = x
+			} else {
+				pl.KeyID = strings.ToUpper(pl.KeyID)
+			}
+		case 5:
+			pl.KeyID += " "
+		default:
+			pl.KeyID = " " + pl.KeyID
+		}
 		return 14
 	case 21: // known key id, wrong secret
 		pl.Secret += "x"
@@ -1019,6 +1044,29 @@ func c06Enum(step int) []c06In {
 				out = append(out, c06In{Cfg: cfg, JNow: now, Kind: 69, Note: name + "=" + lit,
 					Req: c06Req{Method: "GET", Path: "/", Host: "example.com", Headers: [][2]string{{"Authorization", "Bearer " + tok}}}})
 			}
+		}
+	}
+	// header rules: values and patterns with commas / blanks, repeated field lines (always, not sampled)
+	for _, rule := range []c06HRule{{Key: "X-Role", Values: []string{"admin", "auditor"}}, {Key: "X-Scope", Values: []string{"read,write"}},
+		{Key: "X-Tenant", Regexp: "^tenant=[0-9]+, *zone=[a-z]+$"}, {Key: "X-Role", Values: []string{"a, b"}, Regexp: "^(admin|auditor)$"}} {
+		for _, lines := range [][]string{{"admin"}, {"admin,guest"}, {"guest,admin"}, {"admin, auditor"}, {"admin", "guest"}, {"guest", "admin"},
+			{"read,write"}, {"read, write"}, {"read"}, {"tenant=12, zone=eu"}, {"tenant=12,zone=eu"}, {"tenant=12"}, {"a, b"}, {"a,b"}, {"a", "b"}, {"admin,"}} {
+			q := c06Req{Method: "GET", Path: "/", Host: "example.com"}
+			for _, v := range lines {
+				q.Headers = append(q.Headers, [2]string{rule.Key, v})
+			}
+			out = append(out, c06In{Cfg: c06Cfg{Headers: []c06HRule{rule}}, Req: q, JNow: 1700000000, Kind: 66, Note: "comma in header rule / value"})
+		}
+	}
+	// signature: access key ids that are not configured (always, not sampled)
+	for _, mode := range []string{"header", "query"} {
+		for _, ks := range [][2]string{{"", ""}, {"", "SECRET"}, {" ", ""}, {"akid", "SECRET"}, {"AKID ", "SECRET"}, {" AKID", "SECRET"}, {"AKID", "SECRET"}, {"AKID", ""}} {
+			pl := c06SigPlan{Mode: mode, KeyID: ks[0], Secret: ks[1], Scopes: []string{"svc"}, AgeS: 2, Expires: 300, Signed: []string{"host"}, BodyAs: "actual"}
+			if mode == "header" {
+				pl.Signed = append(pl.Signed, "x-me-date")
+			}
+			out = append(out, c06In{Cfg: c06Cfg{Sig: &c06SigCfg{Keys: [][2]string{{"AKID", "SECRET"}}}},
+				Req: c06Req{Method: "GET", Path: "/k", Host: "example.com"}, Plan: &pl, JNow: 1700000000, Kind: 14, Note: "access key id " + fmt.Sprintf("%q", ks[0])})
 		}
 	}
 	// signature with the announced payload hash header (always, not sampled)
